@@ -166,6 +166,14 @@ func InitExportingProcess(input ExporterInput) (*ExportingProcess, error) {
 		wg:              sync.WaitGroup{},
 		stopCh:          make(chan struct{}),
 	}
+	// All fields must be initialized before the goroutines below are started.
+	if expProc.sendJSONRecord {
+		if input.JSONBufferLen <= 0 {
+			expProc.jsonBufferLen = defaultJSONBufferLen
+		} else {
+			expProc.jsonBufferLen = input.JSONBufferLen
+		}
+	}
 
 	// Start a goroutine to check whether the collector has already closed the TCP connection.
 	if input.CollectorProtocol == "tcp" {
@@ -222,13 +230,6 @@ func InitExportingProcess(input ExporterInput) (*ExportingProcess, error) {
 				}
 			}
 		}()
-	}
-	if expProc.sendJSONRecord {
-		if input.JSONBufferLen <= 0 {
-			expProc.jsonBufferLen = defaultJSONBufferLen
-		} else {
-			expProc.jsonBufferLen = input.JSONBufferLen
-		}
 	}
 	return expProc, nil
 }
